@@ -24,6 +24,10 @@ pub fn modes_for(kind: Kind, arg_len: usize) -> Vec<(&'static str, FaultMode)> {
             if arg_len > 512 {
                 v.push(("short-sector-then-EIO", FaultMode::ShortThenErrno(512, libc::EIO)));
             }
+            if arg_len > 72 {
+                // cut inside the first record / element headers of the page (a torn header slot)
+                v.push(("short-72-then-EIO", FaultMode::ShortThenErrno(72, libc::EIO)));
+            }
             if arg_len > 104 {
                 // just past the header record / first elements
                 v.push(("short-104-then-ENOSPC", FaultMode::ShortThenErrno(104, libc::ENOSPC)));
